@@ -501,9 +501,10 @@ def run(tier):
                'evaluations = number of (enumeration phase or instance) x (restored pool B or C) comparisons against pool A')
     ck.assumptions = ['pool A of the same build and process is the reference (pure differential)',
                       'pool ids of SchemaElementDecl objects (XMLElementDecl::getId) are not compared: the loader re-inserts the declarations in hash order, nothing looks them up by id after traversal',
-                      'order of hash-table backed collections (attribute uses, facets, annotations of a grammar, namespaces) is not compared',
-                      'pools holding a DTD grammar are neither locked nor asked for an XSModel, PSVI is recorded only with IGXMLScanner on unlocked pools, generate-synthetic-annotations is off: '
-                      'each of these crashes the process on the unchanged tree (reported as separate findings by the pinned witness cases)',
+                      'order of hash-table backed collections (attribute uses, facets, annotations of a grammar, namespaces) is not compared; neither is the order of errors reported at one and the same position (it follows the iteration order of the attribute-definition table)',
+                      'PSVI is recorded only on unlocked pools and the XSModel is enumerated after the instances (a locked pool, or one whose XSModel was requested before the first parse, '
+                      'hands the parser an empty model: finding F6); generate-synthetic-annotations is off and pools are serialised before they are locked (findings F5, F3: both abort the process); '
+                      'the pinned witness cases keep reproducing these',
                       'pools whose grammars did not load without error are discarded (counted)']
     if stats['pools'] and stats['pools_discarded'] > 0.05 * (stats['pools'] + stats['pools_discarded']):
         ck.inconclusive.append('%d of %d pools discarded because a grammar did not load cleanly' % (stats['pools_discarded'], stats['pools'] + stats['pools_discarded']))
